@@ -353,7 +353,6 @@ func runFollower(t *rapid.T, focus string) {
 func TestC03_Follower(t *testing.T) { rapid.Check(t, func(t *rapid.T) { runFollower(t, "C03") }) }
 func TestC04_Follower(t *testing.T) { rapid.Check(t, func(t *rapid.T) { runFollower(t, "C04") }) }
 
-
 // calledFrom tells whether a function whose name contains name is on the current goroutine's stack.
 func calledFrom(name string) bool {
 	pcs := make([]uintptr, 32)
